@@ -1309,10 +1309,9 @@ func (t *Tokenizer) readPunctuation() (models.Token, error) {
 					Text:   string(t.input[commentStartIdx:textEnd]),
 					Style:  models.LineComment,
 					Start:  commentStartPos,
-					End:    t.toSQLPosition(t.pos),
+					End:    t.toSQLPosition(Position{Index: textEnd}), // where the text ends, not past the newline
 					Inline: t.hasCodeBeforeOnLine(commentStartIdx),
 				})
-				// Return the next token (skip the comment)
 				// The comment is not a token: tell the tokenize loop to start over
 				// at whatever follows it.
 				t.skippedComment = true
@@ -1366,7 +1365,6 @@ func (t *Tokenizer) readPunctuation() (models.Token, error) {
 					End:    t.toSQLPosition(t.pos),
 					Inline: t.hasCodeBeforeOnLine(commentStartIdx),
 				})
-				// Return the next token (skip the comment)
 				// The comment is not a token: tell the tokenize loop to start over
 				// at whatever follows it.
 				t.skippedComment = true
